@@ -7,24 +7,21 @@
 // reader from the decoder's own Read calls), every single-byte substitution over a 16-value
 // alphabet; in the thorough tier every pair of fields and all 256 byte values.
 // Oracle: the decoder returns (value | error), never panics, and the bytes it allocates
-// (runtime.MemStats.TotalAlloc delta, single goroutine, worker subprocess under ulimit -v) stay
+// (cumulative heap-allocation counter = MemStats.TotalAlloc, delta over the call, single goroutine, worker subprocess under ulimit -v) stay
 // below 64·len(input) + 24 MiB.
 package main
 
 import (
 	"encoding/hex"
-	"encoding/json"
 	"fmt"
 	"os"
 	"runtime"
 	"runtime/debug"
-	"sort"
+	"runtime/metrics"
 	"strconv"
 	"strings"
-	"time"
 
 	"verif/evid"
-	"verif/hx"
 	"verif/par"
 	"verif/wire"
 )
@@ -40,11 +37,16 @@ const (
 	// allocated until then is measured like any other case.
 	eofReadCap  = 1 << 20
 	workerMemMB = 2048
+	chunk0      = 4000
 	learnMin    = 1 << 16 // only counts at least this large are learned as allocation sizes
 )
 
 type eofLoop struct{}
-type suppressed struct{ site string }
+type suppressed struct{ sig string }
+
+// guardOwn is set while the twin of an untracked decoder is run as a pre-screen: only then do the
+// entries learned for the untracked decoder's own defects apply.
+var guardOwn bool
 
 // outcome of one decode
 type outcome struct {
@@ -56,11 +58,17 @@ type outcome struct {
 	SupSite  string
 }
 
-var ms runtime.MemStats
+var eofCap = eofReadCap
+
+// totalAlloc is the cumulative number of heap bytes allocated by this process — the counter
+// behind runtime.MemStats.TotalAlloc, read through runtime/metrics (no stop-the-world). Large
+// allocations are accounted at once; small ones when their span is refilled, which can move a
+// few KiB between neighbouring cases and is irrelevant against a bound of MiB.
+var allocSample = []metrics.Sample{{Name: "/gc/heap/allocs:bytes"}}
 
 func totalAlloc() uint64 {
-	runtime.ReadMemStats(&ms)
-	return ms.TotalAlloc
+	metrics.Read(allocSample)
+	return allocSample[0].Value.Uint64()
 }
 
 // capTracker wraps the tracker with the EOF-loop cut-off.
@@ -73,7 +81,7 @@ func (c *capTracker) Read(p []byte) (int, error) {
 	n, err := c.Tracker.Read(p)
 	if n == 0 && len(p) > 0 {
 		c.eofRun++
-		if c.eofRun >= eofReadCap {
+		if c.eofRun >= eofCap {
 			panic(eofLoop{})
 		}
 	} else {
@@ -103,31 +111,60 @@ func panicClass(msg string) string {
 	return msg
 }
 
-// known maps a read site whose value is used, unchecked, as an allocation size (established by a
-// measured violation) to the smallest value seen to violate. Allocation grows with the count, so
-// any case that reads a value at least that large at that site is the same violation; it is
-// stopped at that read (so that the worker survives) and counted under the same signature.
-type known map[string]uint64
+// known maps a read site whose value is used, unchecked, as an allocation size or loop bound
+// (established by a measured violation) to the smallest value from which the violation is certain
+// and to the signature it was reported under. Allocation grows with the count, so any case that
+// reads a value at least that large at that site is the same violation; it is stopped at that read
+// (so that the worker survives) and counted under the same signature.
+type knownEnt struct {
+	Min uint64 `json:"min"`
+	Sig string `json:"sig"`
+	Own bool   `json:"own,omitempty"` // defect of an untracked decoder, named through its twin's site
+}
+type known map[string]knownEnt
 
 func (k known) min() uint64 {
 	m := ^uint64(0)
 	for _, v := range k {
-		if v < m {
-			m = v
+		if v.Min < m {
+			m = v.Min
 		}
 	}
 	return m
 }
 
-func (k known) learn(site string, v uint64) bool {
+func (k known) learn(site string, v uint64, sig string, own bool) bool {
 	if site == "" || v < learnMin {
 		return false
 	}
-	if cur, ok := k[site]; !ok || v < cur {
-		k[site] = v
+	if cur, ok := k[site]; !ok || v < cur.Min {
+		k[site] = knownEnt{Min: v, Sig: sig, Own: own}
 		return true
 	}
 	return false
+}
+
+// guardFrom: a measured violation with count n and allocation A gives the per-element size A/n;
+// counts whose predicted allocation is at least twice the bound are stopped at the read from then
+// on, counts between one and two times the bound are still executed and measured.
+func guardFrom(d diagResult, inputLen int) uint64 {
+	n := d.MinVal
+	if n == 0 || d.Alloc == 0 || d.Alloc <= bound(inputLen) {
+		return n // death or makeslice panic at this count: only equal or larger counts are stopped
+	}
+	iters := n
+	if strings.Contains(d.Signature, "|eof-loop|") && iters > eofReadCap {
+		iters = eofReadCap // the loop was cut off after this many rounds
+	}
+	per := float64(d.Alloc) / float64(iters)
+	g := uint64(2*float64(bound(inputLen))/per) + 1
+	if g > n {
+		g = n
+	}
+	if g < learnMin {
+		g = learnMin
+	}
+	return g
 }
 
 func (k known) clone() known {
@@ -144,20 +181,26 @@ func decode(s *wire.Seed, input []byte, t *wire.Tracker, kn known) (o outcome) {
 	if s.DecodeBuf != nil && len(kn) > 0 {
 		tt := wire.NewTracker(input)
 		tt.NoTrace = true
-		if po := decode(s.TrackedTwin, input, tt, kn); po.Class == "suppressed" {
+		guardOwn = true
+		po := decode(s.TrackedTwin, input, tt, kn)
+		guardOwn = false
+		if po.Class == "suppressed" {
 			return po
 		}
+		kn = nil
 	}
 	ct := &capTracker{Tracker: t}
 	if len(kn) > 0 && s.DecodeBuf == nil {
 		lo := kn.min()
+		own := s.TrackedTwin != nil
+		_ = own
 		t.Guard = func(rd *wire.Rd, val uint64) {
 			if val < lo {
 				return
 			}
 			site := t.SiteHere()
-			if mv, ok := kn[site]; ok && val >= mv {
-				panic(suppressed{site})
+			if e, ok := kn[site]; ok && val >= e.Min && (!e.Own || guardOwn) {
+				panic(suppressed{e.Sig})
 			}
 		}
 	}
@@ -170,7 +213,7 @@ func decode(s *wire.Seed, input []byte, t *wire.Tracker, kn known) (o outcome) {
 					o.Class = "eofloop"
 				case suppressed:
 					o.Class = "suppressed"
-					o.SupSite = x.site
+					o.SupSite = x.sig
 				default:
 					o.Class = "panic"
 					o.PanicMsg = fmt.Sprint(e)
@@ -335,7 +378,13 @@ func soleLargeRead(s *wire.Seed, input []byte) (string, uint64) {
 		s.Decode(&capTracker{Tracker: t})
 	}()
 	site, val, n := "", uint64(0), 0
-	for _, rd := range t.Trace {
+	for i, rd := range t.Trace {
+		// the data part of a var-bytes read (preceded by its own one-byte length at the same
+		// site) is not a count
+		if i > 0 && t.Trace[i-1].Site == rd.Site && t.Trace[i-1].N == 1 && t.Trace[i-1].Got == 1 &&
+			int(input[t.Trace[i-1].Off]) == rd.N {
+			continue
+		}
 		if v := rdValue(input, rd); v >= learnMin {
 			if rd.Site != site {
 				n++
@@ -416,7 +465,32 @@ func diagnose(s *wire.Seed, input []byte, announce bool) diagResult {
 		return diagResult{Signature: "C02|alloc|" + last.Site, Class: "alloc", Alloc: o.Alloc, Site: last.Site, MinVal: rdValue(input, last),
 			What: fmt.Sprintf("slice sized from the unchecked wire value read at %s: %s", last.Site, o.PanicMsg)}
 	case over && maxEofRun > 1000:
-		return diagResult{Signature: "C02|alloc|eof-loop|" + last.Site, Class: "alloc", Alloc: o.Alloc,
+		// which read is the loop bound? the one whose replacement by 1 makes the violation go away
+		// (one try per distinct site, latest occurrence first; the trial runs only need to see
+		// whether the loop is still there, so they are cut off early)
+		csite, cval := "", uint64(0)
+		triedSites := map[string]bool{}
+		saveCap := eofCap
+		eofCap = 1 << 13
+		for i := len(tr) - 1; i >= 0 && len(triedSites) < 12 && !announce; i-- {
+			v := rdValue(input, tr[i])
+			if v < learnMin || triedSites[tr[i].Site] {
+				continue
+			}
+			triedSites[tr[i].Site] = true
+			patched := append([]byte{}, input...)
+			copy(patched[tr[i].Off:tr[i].Off+tr[i].N], make([]byte, tr[i].N))
+			patched[tr[i].Off] = 1
+			pt := wire.NewTracker(patched)
+			pt.NoTrace = true
+			po := decode(s, patched, pt, nil)
+			if po.Class != "eofloop" && po.Class != "panic" && po.Alloc <= bound(len(patched)) {
+				csite, cval = tr[i].Site, v
+				break
+			}
+		}
+		eofCap = saveCap
+		return diagResult{Signature: "C02|alloc|eof-loop|" + last.Site, Class: "alloc", Alloc: o.Alloc, Site: csite, MinVal: cval,
 			What: fmt.Sprintf("decoder keeps looping (and appending) after the input is exhausted: the read at %s fails with EOF and the error is ignored; %d bytes allocated for %d input bytes", last.Site, o.Alloc, len(input))}
 	case over:
 		// the read that completed just before the largest allocation jump
@@ -439,437 +513,6 @@ func diagnose(s *wire.Seed, input []byte, announce bool) diagResult {
 			What: fmt.Sprintf("%d bytes allocated for %d input bytes right after the wire value read at %s (unchecked count used as an allocation size)", o.Alloc, len(input), c.Site)}
 	}
 	return diagResult{}
-}
-
-// ---------------------------------------------------------------------------------------------
-// worker
-
-type artefact struct {
-	Seed   string `json:"seed"`
-	Kind   string `json:"kind"`
-	Label  string `json:"label"`
-	Input  string `json:"input_hex"`
-	Alloc  uint64 `json:"alloc_bytes,omitempty"`
-	Detail string `json:"detail,omitempty"`
-}
-
-type job struct {
-	Op    string `json:"op"` // enum | diag
-	Seed  int    `json:"seed"`
-	From  int    `json:"from"`
-	To    int    `json:"to,omitempty"` // exclusive; 0 = to the end
-	Known known  `json:"known,omitempty"`
-	Input string `json:"input,omitempty"`
-}
-
-type workerOut struct {
-	Seed       string           `json:"seed"`
-	Cases      int              `json:"cases"`
-	Done       bool             `json:"done"`
-	Invalid    bool             `json:"invalid"`
-	Classes    map[string]int   `json:"classes"`
-	Kinds      map[string]int   `json:"kinds"`
-	Fields     int              `json:"fields"`
-	MaxAlloc   uint64           `json:"max_alloc"`
-	Violations []evid.Violation `json:"violations"`
-	Known      known            `json:"known,omitempty"`
-	Diag       *diagResult      `json:"diag,omitempty"`
-}
-
-func seedByIndex(i int) *wire.Seed {
-	seeds, _ := wire.AllSeeds()
-	if i < 0 || i >= len(seeds) {
-		evid.Fatalf("seed index %d out of range", i)
-	}
-	return seeds[i]
-}
-
-func runWorker(r *evid.Run, js string) {
-	var j job
-	if err := json.Unmarshal([]byte(js), &j); err != nil {
-		evid.Fatalf("job: %v", err)
-	}
-	s := seedByIndex(j.Seed)
-	switch j.Op {
-	case "enum":
-		out := workerOut{Seed: s.Name, Classes: map[string]int{}, Kinds: map[string]int{}, Known: j.Known.clone()}
-		tr, ok := baseline(s)
-		if !ok {
-			out.Done, out.Invalid = true, true
-			par.Emit(out)
-			return
-		}
-		fields := wire.Fields(tr)
-		out.Fields = len(fields)
-		g := &caseGen{seed: s.Bytes, fields: fields, tier: r.Tier}
-		vidx := map[string]int{}
-		addViol := func(sig, what string, art artefact) {
-			if i, ok := vidx[sig]; ok {
-				out.Violations[i].Count++
-				return
-			}
-			vidx[sig] = len(out.Violations)
-			out.Violations = append(out.Violations, evid.Violation{Signature: sig, What: what, Count: 1, Artefact: art})
-		}
-		completed := true
-		g.each(j.From, func(idx int, kind, label string, input []byte) bool {
-			if j.To > 0 && idx >= j.To {
-				return false
-			}
-			par.Announce(fmt.Sprintf("%d:%d:%s:%s", j.Seed, idx, kind, label))
-			t := wire.NewTracker(input)
-			t.NoTrace = true
-			o := decode(s, input, t, out.Known)
-			out.Cases++
-			out.Kinds[kind]++
-			cls := o.Class
-			if cls == "err" || cls == "ok" {
-				cls = fmt.Sprintf("%s@%d", cls, o.Reads)
-			}
-			out.Classes[cls]++
-			if o.Alloc > out.MaxAlloc {
-				out.MaxAlloc = o.Alloc
-			}
-			switch {
-			case o.Class == "suppressed":
-				sig := "C02|alloc|" + o.SupSite
-				if s.DecodeBuf != nil {
-					if _, own := out.Known["self@"+o.SupSite]; own {
-						sig = "C02|alloc|" + s.Name + "|self"
-					}
-				}
-				addViol(sig, "", artefact{Seed: s.Name, Kind: kind, Label: label, Input: hex.EncodeToString(input), Detail: "stopped at the read of the count (site already shown to allocate from it)"})
-			case o.Class == "panic" || o.Alloc > bound(len(input)):
-				d := diagnose(s, input, false)
-				if d.Signature == "" {
-					// not reproduced on the second run: engine problem, never a verdict
-					evid.Fatalf("violation on %s case %d (%s %s) did not reproduce under diagnosis", s.Name, idx, kind, label)
-				}
-				addViol(d.Signature, d.What, artefact{Seed: s.Name, Kind: kind, Label: label, Input: hex.EncodeToString(input), Alloc: d.Alloc})
-				if out.Known.learn(d.Site, d.MinVal) && strings.HasSuffix(d.Signature, "|self") {
-					out.Known["self@"+d.Site] = d.MinVal
-				}
-			}
-			if r.Expired() {
-				completed = false
-				return false
-			}
-			return true
-		})
-		out.Done = completed
-		par.Emit(out)
-	case "diag":
-		// single case, announcing every read site and value, so that the parent can name the
-		// culprit even if this process is killed by the allocation.
-		input, err := hex.DecodeString(j.Input)
-		if err != nil {
-			evid.Fatalf("diag: bad hex")
-		}
-		par.Announce("site:none|field=?#0")
-		d := diagnose(s, input, true)
-		par.Emit(workerOut{Seed: s.Name, Diag: &d, Done: true})
-	default:
-		evid.Fatalf("unknown job %q", js)
-	}
-}
-
-func jobString(j job) string {
-	b, _ := json.Marshal(j)
-	return string(b)
-}
-
-// diagInSubprocess runs one input in a fresh worker and turns a death into a signature.
-func diagInSubprocess(scr string, si int, s *wire.Seed, input []byte) diagResult {
-	res := par.Procs([]string{jobString(job{Op: "diag", Seed: si, Input: hex.EncodeToString(input)})}, scr, par.Opts{MemMB: workerMemMB, Timeout: 5 * time.Minute, Parallel: 1})
-	r0 := res[0]
-	if !r0.Died {
-		var wo workerOut
-		if err := json.Unmarshal(r0.Out, &wo); err != nil || wo.Diag == nil {
-			evid.Fatalf("diag worker output: %v %s", err, r0.Stderr)
-		}
-		return *wo.Diag
-	}
-	if r0.TimedOut {
-		evid.Fatalf("diag worker timed out on %s", s.Name)
-	}
-	if !strings.HasPrefix(r0.Announced, "site:") {
-		evid.Fatalf("diag worker died without announcing a site: %s", r0.Stderr)
-	}
-	site := strings.TrimPrefix(r0.Announced, "site:")
-	var val uint64
-	if k := strings.LastIndex(site, "#"); k >= 0 {
-		val, _ = strconv.ParseUint(site[k+1:], 10, 64)
-		site = site[:k]
-	}
-	fatal := "killed"
-	if strings.Contains(r0.Stderr, "out of memory") || strings.Contains(r0.Stderr, "cannot allocate memory") {
-		fatal = "fatal error: out of memory"
-	}
-	if k := strings.Index(site, "|self@"); k >= 0 {
-		// the untracked decoder died on its own (its twin had finished cleanly)
-		name, csite := site[:k], site[k+len("|self@"):]
-		return diagResult{Signature: "C02|alloc|" + name + "|self", Class: "alloc", Site: csite, MinVal: val,
-			What: fmt.Sprintf("%s dies (%s under a %d MiB address-space limit) allocating from an unchecked wire count where the io.Reader decoder of the same layout does not; count read at %s", name, fatal, workerMemMB, csite)}
-	}
-	return diagResult{Signature: "C02|alloc|" + site, Class: "alloc", Site: site, MinVal: val,
-		What: fmt.Sprintf("decoder process dies (%s under a %d MiB address-space limit) right after the wire value read at %s (unchecked count used as an allocation size)", fatal, workerMemMB, site)}
-}
-
-// ---------------------------------------------------------------------------------------------
-
-type pend struct {
-	si, from, to int
-	known        known
-}
-
-func main() {
-	r := evid.Start("C02", "exploration")
-	scr := evid.Scratch("c02")
-	defer os.RemoveAll(scr)
-	if js, ok := par.Worker(); ok {
-		hx.QuietLogs(scr)
-		runWorker(r, js)
-		os.RemoveAll(scr)
-		return
-	}
-	hx.QuietLogs(scr)
-	seeds, skipped := wire.AllSeeds()
-	if len(os.Args) > 1 && os.Args[1] == "--seeds" {
-		listSeeds(seeds, skipped)
-		os.RemoveAll(scr)
-		return
-	}
-	if r.Replay != "" {
-		replay(r, scr, seeds)
-		return
-	}
-
-	var pending []pend
-	invalid := []string{}
-	only := os.Getenv("VERIF_C02_ONLY") // debugging aid: restrict to seeds whose name contains this
-	for i, s := range seeds {
-		if only != "" && !strings.Contains(s.Name, only) {
-			continue
-		}
-		if err := s.Validate(); err != nil {
-			invalid = append(invalid, s.Name+": "+err.Error())
-			continue
-		}
-		pending = append(pending, pend{si: i, known: known{}})
-	}
-	type seedStat struct {
-		Cases, Fields int
-		MaxAlloc      uint64
-		Classes       map[string]int
-		Kinds         map[string]int
-	}
-	perSeed := map[string]*seedStat{}
-	stat := func(n string) *seedStat {
-		ws := perSeed[n]
-		if ws == nil {
-			ws = &seedStat{Classes: map[string]int{}, Kinds: map[string]int{}}
-			perSeed[n] = ws
-		}
-		return ws
-	}
-	exhaustive := true
-	deaths := 0
-	whatOf := map[string]string{}
-	type lateViol struct{ v evid.Violation }
-	var late []lateViol
-	for rounds := 0; len(pending) > 0; rounds++ {
-		if rounds > 2000 {
-			evid.Fatalf("too many restart rounds")
-		}
-		jobs := make([]string, len(pending))
-		for i, p := range pending {
-			jobs[i] = jobString(job{Op: "enum", Seed: p.si, From: p.from, To: p.to, Known: p.known})
-		}
-		results := par.Procs(jobs, scr, par.Opts{MemMB: workerMemMB, Timeout: 40 * time.Minute, Env: []string{"GOMAXPROCS=2"}})
-		var next []pend
-		for i, res := range results {
-			p := pending[i]
-			s := seeds[p.si]
-			ws := stat(s.Name)
-			if res.Died {
-				if res.TimedOut {
-					evid.Fatalf("worker for %s timed out (announced %q)", s.Name, res.Announced)
-				}
-				// the announced case killed the worker: out-of-memory or a fatal runtime error
-				a := strings.SplitN(res.Announced, ":", 4)
-				if len(a) < 4 {
-					evid.Fatalf("worker for %s died without announcing a case: %s", s.Name, res.Stderr)
-				}
-				idx, _ := strconv.Atoi(a[1])
-				deaths++
-				tr, _ := baseline(s)
-				g := &caseGen{seed: s.Bytes, fields: wire.Fields(tr), tier: r.Tier}
-				var input []byte
-				g.each(idx, func(_ int, kind, label string, in []byte) bool { input = in; return false })
-				d := diagInSubprocess(scr, p.si, s, input)
-				if d.Signature == "" {
-					evid.Fatalf("worker for %s died on case %s but the case is clean when re-run alone: %s", s.Name, res.Announced, res.Stderr)
-				}
-				art := artefact{Seed: s.Name, Kind: a[2], Label: a[3], Input: hex.EncodeToString(input), Detail: "worker process died on this input"}
-				kn := p.known.clone()
-				learned := kn.learn(d.Site, d.MinVal)
-				if learned && strings.HasSuffix(d.Signature, "|self") {
-					kn["self@"+d.Site] = d.MinVal
-				}
-				whatOf[d.Signature] = d.What
-				if learned {
-					// the worker's counters for [from, idx) died with it: run the segment again
-					// with the guard armed; the killer is then stopped at the read of the count
-					// and counted once. Keep the artefact of the unguarded death.
-					late = append(late, lateViol{evid.Violation{Signature: d.Signature, What: d.What, Count: 0, Artefact: art}})
-					next = append(next, pend{si: p.si, from: p.from, to: p.to, known: kn})
-				} else {
-					// cannot be guarded: count the killer here, re-run the prefix bounded, and
-					// continue behind the killer
-					r.Violate(d.Signature, d.What, art)
-					ws.Cases++
-					ws.Kinds[a[2]]++
-					ws.Classes["died"]++
-					if idx > p.from {
-						next = append(next, pend{si: p.si, from: p.from, to: idx, known: kn})
-					}
-					if p.to == 0 || idx+1 < p.to {
-						next = append(next, pend{si: p.si, from: idx + 1, to: p.to, known: kn})
-					}
-				}
-				continue
-			}
-			var wo workerOut
-			if err := json.Unmarshal(res.Out, &wo); err != nil {
-				evid.Fatalf("worker output for %s: %v\n%s", s.Name, err, res.Stderr)
-			}
-			if wo.Invalid {
-				invalid = append(invalid, s.Name+": baseline decode failed in worker")
-				continue
-			}
-			if !wo.Done {
-				exhaustive = false
-			}
-			ws.Cases += wo.Cases
-			ws.Fields = wo.Fields
-			if wo.MaxAlloc > ws.MaxAlloc {
-				ws.MaxAlloc = wo.MaxAlloc
-			}
-			for k, v := range wo.Classes {
-				ws.Classes[k] += v
-			}
-			for k, v := range wo.Kinds {
-				ws.Kinds[k] += v
-			}
-			for _, v := range wo.Violations {
-				if v.What != "" {
-					whatOf[v.Signature] = v.What
-				}
-			}
-			for _, v := range wo.Violations {
-				late = append(late, lateViol{v})
-			}
-		}
-		pending = next
-	}
-	// merge violations in a deterministic order: by seed order is implied by results order within
-	// a round; sort by signature, artefacts with a measured allocation first
-	sort.SliceStable(late, func(i, j int) bool {
-		if late[i].v.Signature != late[j].v.Signature {
-			return late[i].v.Signature < late[j].v.Signature
-		}
-		ai, _ := json.Marshal(late[i].v.Artefact)
-		aj, _ := json.Marshal(late[j].v.Artefact)
-		si, sj := strings.Contains(string(ai), "stopped at the read"), strings.Contains(string(aj), "stopped at the read")
-		if si != sj {
-			return !si
-		}
-		return false
-	})
-	for _, l := range late {
-		v := l.v
-		if v.What == "" {
-			v.What = whatOf[v.Signature]
-			if v.What == "" {
-				v.What = "allocation sized from the unchecked wire value read at " + strings.TrimPrefix(v.Signature, "C02|alloc|")
-			}
-		}
-		r.MergeViolation(v)
-	}
-	// totals
-	names := make([]string, 0, len(perSeed))
-	for n := range perSeed {
-		names = append(names, n)
-	}
-	sort.Strings(names)
-	totalCases, fieldsTotal := 0, 0
-	var maxAlloc uint64
-	classes, kinds := map[string]int{}, map[string]int{}
-	distinct := map[string]bool{}
-	samples := &evid.Samples{N: 8}
-	for _, n := range names {
-		ws := perSeed[n]
-		totalCases += ws.Cases
-		fieldsTotal += ws.Fields
-		if ws.MaxAlloc > maxAlloc {
-			maxAlloc = ws.MaxAlloc
-		}
-		for k, v := range ws.Classes {
-			classes[k] += v
-			// non-trivial: the decoder got past its first read (reads >= 2) or misbehaved
-			nt := true
-			if strings.HasPrefix(k, "err@") || strings.HasPrefix(k, "ok@") {
-				rd, _ := strconv.Atoi(k[strings.Index(k, "@")+1:])
-				nt = rd >= 2
-			}
-			if nt && v > 0 {
-				distinct[n+"|"+k] = true
-			}
-		}
-		for k, v := range ws.Kinds {
-			kinds[k] += v
-		}
-		sd := seedNamed(seeds, n)
-		samples.Add(map[string]interface{}{"seed": n, "seed_len": len(sd.Bytes), "fields": ws.Fields, "cases": ws.Cases, "outcome_classes": len(ws.Classes), "seed_hex_prefix": hexPrefix(sd.Bytes, 48)})
-	}
-	okCount, errCount := 0, 0
-	for k, v := range classes {
-		if strings.HasPrefix(k, "ok@") {
-			okCount += v
-		} else if strings.HasPrefix(k, "err@") {
-			errCount += v
-		}
-	}
-	r.Assume = append(r.Assume,
-		"allocation is measured as the runtime.MemStats.TotalAlloc delta of the decode call on the only running goroutine of a worker process",
-		fmt.Sprintf("bound = %d*len(input) + %d MiB; the constant covers checked pre-sizing (ReadVarString 16 MiB cap, ReadVarBytes up to 8 MB, inv/merkleblock/addr/locator caps)", allocPerByte, allocConst>>20),
-		"once a read site has been measured to feed an unchecked allocation, later cases that read an equal or larger value at that site are stopped at that read and counted under the same signature (allocation is monotone in the count); this keeps workers alive and does not change which signatures are reported",
-		"checkpoint decoders reading from disk (dpos/state, cr/state, mempool, wallet) are not covered",
-	)
-	cov := evid.Coverage{
-		"evaluations":         totalCases,
-		"distinct_nontrivial": len(distinct),
-		"rule": "per seed (valid encoding produced by the repository's serialisers): every truncation, every single-field substitution over the boundary alphabet " +
-			"(fields = 1/2/4/8-byte reads seen by the tracking reader; 1-byte fields also replaced by 3/5/9-byte var-int encodings, canonical and non-canonical), " +
-			"every single-byte substitution over a 16-value alphabet (thorough: 256 values and all field pairs over a reduced menu). " +
-			"distinct_nontrivial = distinct (seed, outcome class) pairs where the decoder got past its first read; outcome class = ok@reads / err@reads / panic / eofloop / suppressed / died",
-		"exhaustive":                  exhaustive,
-		"seeds":                       len(names),
-		"seeds_invalid":               invalid,
-		"seeds_skipped":               skipped,
-		"fields_discovered":           fieldsTotal,
-		"cases_by_kind":               kinds,
-		"decoded_ok":                  okCount,
-		"rejected_with_error":         errCount,
-		"panics":                      classes["panic"],
-		"eof_loops_cut_off":           classes["eofloop"],
-		"stopped_at_known_count_site": classes["suppressed"],
-		"worker_deaths":               deaths,
-		"max_alloc_bytes_seen":        maxAlloc,
-		"samples":                     samples.Out,
-	}
-	os.RemoveAll(scr)
-	r.Finish(cov)
 }
 
 func seedNamed(seeds []*wire.Seed, n string) *wire.Seed {
